@@ -53,6 +53,23 @@ pub(crate) fn sched_point(name: &'static str, what: &str) {
 }
 
 // ---------------------------------------------------------------------------------------------
+// tuning knobs: constants on which correctness must not depend
+
+static INDEXER_MAX_COUNT: std::sync::atomic::AtomicUsize = std::sync::atomic::AtomicUsize::new(0);
+
+/// Override the number of blobs after which the indexer saves an index file (0 = the built-in value).
+pub fn set_indexer_max_count(n: usize) {
+    INDEXER_MAX_COUNT.store(n, std::sync::atomic::Ordering::SeqCst);
+}
+
+pub(crate) fn indexer_max_count(default: usize) -> usize {
+    match INDEXER_MAX_COUNT.load(std::sync::atomic::Ordering::SeqCst) {
+        0 => default,
+        n => n,
+    }
+}
+
+// ---------------------------------------------------------------------------------------------
 // access to crate-private functionality for the simulator
 
 /// The chunk iterator the archiver uses for `config` (the chunker types are crate-private).
